@@ -923,10 +923,44 @@ fn run_inner(sc: &J) -> Result<Option<String>, String> {
                 match Schema::parse_str(&canon) {
                     // (in the accept/reject catalogue of C11 logical types are excluded from this comparison: their canonical form is the
                     // recorded known finding D14 under C12, whose own replay — a schema_ops scenario without `expect` — still checks it)
-                    Ok(again) => if again.canonical_form() != canon && !(sc.get("expect").is_some() && text.contains("logicalType")) { return Ok(Some(format!("canonical form is not a fixed point: {canon} -> {}", again.canonical_form()))); },
+                    Ok(again) => if again.canonical_form() != canon && !((sc.get("expect").is_some() || sc["d14"].as_bool() == Some(true)) && text.contains("logicalType")) { return Ok(Some(format!("canonical form is not a fixed point: {canon} -> {}", again.canonical_form()))); },
                     Err(e) => return Ok(Some(format!("canonical form {canon} of an accepted schema does not parse: {e}"))),
                 }
             }
+            Ok(None)
+        }
+        // C11: "parsing any text never panics or hangs, and every operation on an accepted schema completes without panicking" —
+        // systematic mutations of valid schema texts (truncation at every offset, every character deleted, every digit run replaced
+        // by huge / negative / fractional numbers, every string literal replaced by "", "1x" and a name of another type), each put
+        // through the schema_ops check (parse; if accepted: well-formedness oracle, canonical form, fingerprint, JSON, Debug)
+        "schema_text_fuzz" => {
+            let seeds = [
+                "{\"type\":\"record\",\"name\":\"n.R\",\"aliases\":[\"Old\"],\"fields\":[{\"name\":\"a\",\"type\":[\"null\",\"long\"],\"default\":null},{\"name\":\"b\",\"type\":{\"type\":\"array\",\"items\":\"n.R\"},\"default\":[]}]}",
+                "{\"type\":\"enum\",\"name\":\"E\",\"symbols\":[\"A\",\"B\"],\"default\":\"A\"}",
+                "{\"type\":\"fixed\",\"name\":\"F\",\"size\":16,\"logicalType\":\"decimal\",\"precision\":10,\"scale\":2}",
+                "{\"type\":\"map\",\"values\":{\"type\":\"bytes\",\"logicalType\":\"decimal\",\"precision\":4}}",
+                "[\"null\",{\"type\":\"string\",\"logicalType\":\"uuid\"},{\"type\":\"long\",\"logicalType\":\"timestamp-micros\"},{\"type\":\"fixed\",\"name\":\"D\",\"size\":12,\"logicalType\":\"duration\"}]",
+            ];
+            let mut n = 0usize;
+            for seed in seeds {
+                let chars: Vec<char> = seed.chars().collect();
+                let mut texts: Vec<String> = Vec::new();
+                for i in 0..chars.len() { texts.push(chars[..i].iter().collect()); let mut c = chars.clone(); c.remove(i); texts.push(c.into_iter().collect()); }
+                // numbers
+                let mut i = 0; while i < chars.len() { if chars[i].is_ascii_digit() { let mut j = i; while j < chars.len() && chars[j].is_ascii_digit() { j += 1; }
+                    for rep in ["18446744073709551616", "-1", "1.5", "1e400", "0", "99999999999999999999999999999999"] { let t: String = chars[..i].iter().collect::<String>() + rep + &chars[j..].iter().collect::<String>(); texts.push(t); }
+                    i = j; } else { i += 1; } }
+                // string literals
+                let mut i = 0; while i < chars.len() { if chars[i] == '"' { let mut j = i + 1; while j < chars.len() && chars[j] != '"' { j += 1; }
+                    for rep in ["\"\"", "\"1x\"", "\"n.R\"", "\"null\"", "\"record\"", "null", "7", "[]", "{}"] { let t: String = chars[..i].iter().collect::<String>() + rep + &chars[(j + 1).min(chars.len())..].iter().collect::<String>(); texts.push(t); }
+                    i = j + 1; } else { i += 1; } }
+                for t in texts {
+                    n += 1;
+                    let scn = serde_json::json!({"kind": "schema_ops", "text": t, "d14": true});   // logical types' canonical form is known finding D14 (C12)
+                    if let Some(m) = run_inner(&scn)? { return Ok(Some(format!("mutated schema text {t}: {m}"))); }
+                }
+            }
+            let _ = n;
             Ok(None)
         }
         // C08: data written with `writer`, read with `reader`: the result is the value the resolution rules prescribe (`expect`,
@@ -1307,6 +1341,31 @@ fn run_inner(sc: &J) -> Result<Option<String>, String> {
                 (Some("ok"), Err(e)) => Ok(Some(format!("a spec-conforming file is rejected: {e}"))),
                 _ => Ok(None),
             }
+        }
+        // C05/C14/C11: systematic single-byte mutations and truncations of valid container files (one per codec name in the header,
+        // with a compression level entry) — opening and draining them never panics or hangs (wrapper)
+        "container_header_fuzz" => {
+            let bs = |b: &[u8]| -> Vec<u8> { let mut o = crate::refimpl::long(b.len() as i64); o.extend_from_slice(b); o };
+            for codec in ["null", "deflate", "snappy", "zstandard", "bzip2", "xz", "unknown"] {
+                let mut f = b"Obj\x01".to_vec();
+                f.extend(crate::refimpl::long(4));
+                f.extend(bs(b"avro.schema")); f.extend(bs(b"{\"type\":\"record\",\"name\":\"r\",\"fields\":[{\"name\":\"a\",\"type\":[\"null\",\"long\"]}]}"));
+                f.extend(bs(b"avro.codec")); f.extend(bs(codec.as_bytes()));
+                f.extend(bs(b"avro.codec.compression_level")); f.extend(bs(&[3]));
+                f.extend(bs(b"user")); f.extend(bs(b"x"));
+                f.extend(crate::refimpl::long(0)); f.extend_from_slice(&[8u8; 16]);
+                let hdr = f.len();
+                f.extend(crate::refimpl::long(2)); f.extend(crate::refimpl::long(3)); f.extend_from_slice(&[0, 2, 14]); f.extend_from_slice(&[8u8; 16]);
+                for pos in 0..f.len() {
+                    for m in 0..6 {
+                        let mut g = f.clone();
+                        match m { 0 => g[pos] = 0, 1 => g[pos] = 0xff, 2 => g[pos] = 0x80, 3 => g[pos] ^= 1, 4 => g[pos] = g[pos].wrapping_add(1), _ => g.truncate(pos) }
+                        if let Ok(rd) = apache_avro::Reader::new(&g[..]) { let _ = rd.user_metadata().len(); let _: Vec<_> = rd.take(50).collect(); }
+                    }
+                }
+                let _ = hdr;
+            }
+            Ok(None)
         }
         // C04: the metadata map of the header — every user key the writer accepted comes back from Reader::user_metadata() with
         // its bytes (keys merely STARTING with "avro" are not reserved: only the "avro." namespace is); reserved keys are
